@@ -225,7 +225,31 @@ func checkC09(r *Result) {
 						det = fmt.Sprintf("minuend %s ; running sum: bases %d, addends %d (the part itself: %v)", rew, len(bases), len(adds), allCalc)
 					}
 				}
-				// the edge with the remainder is taken when index == len-1
+				// the edge with the remainder is taken when index == len-1: the block computing the remainder is
+				// entered on the true edge of `i == len(list) - 1`
+				if oc, isCall := other.(*ssa.Call); isCall && ok {
+					condOK := false
+					for _, p := range oc.Block().Preds {
+						iff, isIf := p.Instrs[len(p.Instrs)-1].(*ssa.If)
+						if !isIf {
+							continue
+						}
+						rel, pol := Cond(tm.Of(iff.Cond))
+						onTrue := p.Succs[0] == oc.Block()
+						if rel.Op == "==" && len(rel.Args) == 2 && onTrue == pol {
+							for _, pair := range [][2]*Term{{rel.Args[0], rel.Args[1]}, {rel.Args[1], rel.Args[0]}} {
+								idx, lim := pair[0], pair[1]
+								if (idx.Op == "phi" || idx.Op == "+") && lim.Op == "-" && len(lim.Args) == 2 && lim.Args[0].Op == "call:builtin:len" && lim.Args[1].Op == "const:1" {
+									condOK = true
+								}
+							}
+						}
+					}
+					if !condOK {
+						ok = false
+						det += " ; the remainder is not added exactly under index == len - 1"
+					}
+				}
 			}
 			r.check(ok, "REMAINDER", "(x/oracle/keeper.Keeper).AllocateRewards # last part = part + reward - sum of parts", pos(cs.Pos()), det)
 			a1, a2, a4 := tm.Of(Arg(cs.Instr, 1)), tm.Of(Arg(cs.Instr, 2)), tm.Of(Arg(cs.Instr, 4))
